@@ -5,11 +5,10 @@ from contracts import pq, barrel
 
 
 def run(ded, repo, tier):
-    for q in pq.FUNCS:
-        eng = pq.make_engine(repo)
-        driver.discharge(ded, eng, q, clause_of={'*': 'priority_order'}, tier=tier)
-    eng = barrel.make_engine(repo)
-    driver.discharge(ded, eng, 'BarrelList._translate_index', clause_of={'*': 'index_translation'}, tier=tier)
+    specs = [dict(module='contracts.pq', repo=repo, q=q, tier=tier, clause_of={'*': 'priority_order'}) for q in pq.FUNCS]
+    specs.append(dict(module='contracts.barrel', repo=repo, q='BarrelList._translate_index', tier=tier,
+                      clause_of={'*': 'index_translation'}))
+    driver.run_parallel(ded, specs)
     ded.trust('ASSUMED backend contract (not verified): heapq.heappush/heappop on a list and bisect.insort/pop(0) on a BarrelList '
               'behave as a bag with access to its minimum under list comparison of [priority, count, task]')
     ded.trust('itertools.count yields strictly increasing integers')
